@@ -103,6 +103,11 @@ func (o WorkerGroupConf) CanContinueOnError(err error) bool {
 
 		return false
 	default:
+		if ers.Is(err, o.ExcludedErrors...) {
+			// excluded errors are neither collected nor abort the
+			// operation.
+			return true
+		}
 		o.ErrorHandler(err)
 		return o.ContinueOnError
 	}
